@@ -829,6 +829,10 @@ const c11Capacity = 1000000
 
 func c11Exec(r *gosim.Run) {
 	shedTuneGC()
+	if r.Plan.P("cfg", 0) == 2 {
+		c11ExecConc(r)
+		return
+	}
 	n := int(r.Plan.P("n", 8))
 	w := &c11World{r: r, u: c11Universe(n)}
 	w.model = make([]c11St, w.u.n())
@@ -910,6 +914,9 @@ func c11Exec(r *gosim.Run) {
 }
 
 func c11Gen(rng *rand.Rand, tier string) *gosim.Plan {
+	if rng.Intn(10) < 3 {
+		return c11GenConc(rng, tier) // cfg 2: concurrent clients, see c11_concurrent.go
+	}
 	p := &gosim.Plan{Params: map[string]int64{}}
 	n := 4 + rng.Intn(9)
 	p.Params["n"] = int64(n)
